@@ -141,3 +141,5 @@ fn k_layout_meta_header_kernel() {
         kani::cover!(meta.size() == 0);
     }
 }
+
+pub(crate) fn header_addr(p: GcPtr) -> usize { p.header() as *const GcHeader as usize }
